@@ -43,6 +43,18 @@ pub const LEGAL: [Choice; 7] = [
 ];
 pub const FAULTS: [Choice; 6] =
     [Choice::ReadErr, Choice::Eof, Choice::ShortThenEof, Choice::SeekErr, Choice::ReadErrDead, Choice::SeekErrDead];
+/// the C17 alphabet: the faults plus plain short reads (the property lists "short read" among the
+/// fault kinds; a correct reader absorbs them, so the answer must equal the fault-free one)
+pub const FAULTS_AND_SHORT: [Choice; 8] = [
+    Choice::ReadErr,
+    Choice::Eof,
+    Choice::ShortThenEof,
+    Choice::SeekErr,
+    Choice::ReadErrDead,
+    Choice::SeekErrDead,
+    Choice::Short1,
+    Choice::ShortHalf,
+];
 
 impl Choice {
     pub fn is_fault(&self) -> bool {
@@ -793,7 +805,8 @@ pub struct RefHeaders {
 /// ranges derivable so far, see `open_ranges`).
 pub fn ref_headers(bytes: &[u8]) -> RefHeaders {
     let mut r = RefHeaders::default();
-    r.open_ranges.push((0, 64));
+    // the ident first; the rest of the file header only once the class is known
+    r.open_ranges.push((0, 16));
     if bytes.len() < 16 {
         return r;
     }
@@ -809,6 +822,7 @@ pub fn ref_headers(bytes: &[u8]) -> RefHeaders {
     };
     let enc = Enc { class, order };
     let ehl = rlayout(Kind::Ehdr, class);
+    r.open_ranges.push((0, ehl.size as u64));
     if bytes.len() < ehl.size {
         return r;
     }
